@@ -407,6 +407,10 @@ def run(prog, rep, tier):
     rep.rule('LOOP-carried-flag', 'a flag set under a test inside a loop body and read there is '
              're-initialised per iteration')
     check_carried_flags(prog, rep, ['tenpy/networks/mpo.py'])
+    from ..flow import check_mixed_accumulation
+    rep.rule('ACCUM-mixed', 'a container that accumulates contributions in a loop is not also '
+             'overwritten there')
+    check_mixed_accumulation(prog, rep, ['tenpy/networks/mpo.py'])
     return rep.finish(
         level='other',
         explanation='Flag exhaustiveness over %d W-using MPO methods, flag forwarding of derived '
